@@ -166,7 +166,11 @@ PROPS = {
     },
     "C07": {
         "module": "MF.Props.C07",
-        "theorems": ["MF.Props.C07.parse_sound", "MF.Props.C07.parse_complete", "MF.Props.C07.grouping_unique",
+        "module_extra": ["MF.Props.C07Ladder"],
+        "theorems": ["MF.Props.C07.ladder_recognised", "MF.Props.C07.ladder_chain", "MF.Props.C07.ladder_eq_spec", "MF.Props.C07.ladder_assoc",
+                     "MF.Props.C07.ladder_tokens", "MF.Props.C07.ladder_disjoint", "MF.Props.C07.ladder_static",
+                     "MF.Props.C07.ladder_level_of_bop", "MF.Props.C07.ladder_level_of_uop", "MF.Props.C07.ladder_level_of_special",
+                     "MF.Props.C07.parse_sound", "MF.Props.C07.parse_complete", "MF.Props.C07.grouping_unique",
                      "MF.Props.C07.comparison_once", "MF.Props.C07.comparison_nonassoc", "MF.Props.C07.print_minimal_partial",
                      "MF.Props.C07.parse_mono", "MF.Props.C07.level_is_table", "MF.Props.C07.top_sound", "MF.Props.C07.top_complete",
                      "MF.Props.C07.no_crash", "MF.Props.C07.subscript_word_not_call", "MF.Props.C07.subscript_word_plain"],
@@ -177,8 +181,12 @@ PROPS = {
                          "ast/sql.go exprPrec/paren/SQL() of the expression nodes, for the fragment M1 (atoms, parentheses, prefix, binary, "
                          "comparison-family, postfix operators); tied to memefish.ParseExpr by the EXPR channel (AST shape, SQL() text, re-lexing flag)",
                          "specification MF/Spec/Precedence.lean: the GoogleSQL precedence table as data, level/PrecOK, the projection of tokens and the "
-                         "yield of a tree, written from the property text; lexer model MF/Model/Lexer.lean (LEX channel)"],
-        "assumptions": ["the theorems are over token lists (as produced by the model lexer); productions outside the fragment (calls, CASE, CAST, "
+                         "yield of a tree, written from the property text; lexer model MF/Model/Lexer.lean (LEX channel)",
+                         "translator tools/extract/ladder.go (go/ast, purely syntactic): the ten ladder functions parseOr..parseUnary of parser.go are read into data on every run "
+                         "(lean/MF/Gen/Ladder.lean: shape, operand callee, token cases with the ast.Op constant each assigns, special cases) and the kernel re-decides that this ladder implements "
+                         "the GoogleSQL table (levels, associativity, token spellings): MF/Props/C07Ladder.lean; a function that does not fit a known shape is emitted as unrecognised and the obligation fails"],
+        "assumptions": ["regenerated tie: `ladder_eq_spec`, `ladder_assoc`, `ladder_tokens` hold of the ladder read out of parser.go on this run; they do not cover sign folding, parseSelector and parseLit (model + EXPR channel)",
+                        "the theorems are over token lists (as produced by the model lexer); productions outside the fragment (calls, CASE, CAST, "
                         "sub-queries, ARRAY/STRUCT, typed literals, tuples, ...) are answered `outside` by the model and not compared",
                         "print_minimal is proved at the token level (`_partial`): that the model lexer reads the printed bytes as those tokens is "
                         "evaluated on every EXPR request (field rt) and by the predicate on the Go code, not proved"],
